@@ -38,6 +38,7 @@ type Engine struct {
 	pureIfaceMethods map[string]bool
 	guarded     map[string]string // heap name -> mutex heap path (see locks.go)
 	bitsUsed    map[[2]int]bool
+	immutable   map[string]bool // heap names of fields that are only written at construction
 	repo        string
 }
 
@@ -93,6 +94,10 @@ func loadEngine(repo string) (*Engine, error) {
 		return nil, err
 	}
 	eng.cf = cf
+	eng.immutable = map[string]bool{}
+	for _, f := range cf.Immutable {
+		eng.immutable["F$"+f] = true
+	}
 	return eng, nil
 }
 
@@ -626,4 +631,63 @@ func (e *Engine) contractedKeysForProp(prop string) []string {
 	}
 	sort.Strings(out)
 	return out
+}
+
+// immutabilityObligations: every store to a field declared immutable must
+// target an object allocated in the same function (construction).  One
+// static obligation per declared field.
+func (e *Engine) immutabilityObligations() *VC {
+	vc := newVC(e, "immutable-fields")
+	bad := map[string][]string{}
+	var scan func(f *ssa.Function)
+	scan = func(f *ssa.Function) {
+		for _, b := range f.Blocks {
+			for _, in := range b.Instrs {
+				st, ok := in.(*ssa.Store)
+				if !ok {
+					continue
+				}
+				l := e.staticLoc(st.Addr)
+				if l == nil {
+					continue
+				}
+				// root object of the address
+				var root ssa.Value = st.Addr
+				for {
+					if fa, ok := root.(*ssa.FieldAddr); ok {
+						root = fa.X
+						continue
+					}
+					break
+				}
+				_, fresh := root.(*ssa.Alloc)
+				for _, leaf := range leafLocs(l) {
+					if e.immutable[leaf.heapName()] && !fresh {
+						bad[leaf.heapName()] = append(bad[leaf.heapName()], fmt.Sprintf("%s (%s)", e.keyOf(f), e.fset.Position(st.Pos())))
+					}
+				}
+			}
+		}
+		for _, a := range f.AnonFuncs {
+			scan(a)
+		}
+	}
+	seen := map[*ssa.Function]bool{}
+	for _, f := range e.fnByKey {
+		if f.Pkg == e.pkg && !seen[f] && f.Parent() == nil {
+			seen[f] = true
+			scan(f)
+		}
+	}
+	for _, h := range sortedKeys(e.immutable) {
+		o := &Obl{Name: "only-written-at-construction#" + strings.TrimPrefix(h, "F$"), Kind: "immutable", Guard: "true", Formula: "true", Func: "immutable-fields"}
+		if len(bad[h]) > 0 {
+			o.Formula = "false"
+			o.Static = "fail:field " + h + " is declared immutable but is stored to outside construction in " + strings.Join(bad[h], ", ")
+		} else {
+			o.Static = "ok:no store outside construction"
+		}
+		vc.obls = append(vc.obls, o)
+	}
+	return vc
 }
